@@ -122,6 +122,76 @@ def r13_2(prog: Program, chk: Check) -> None:
     chk.notes.append("not decided: an un-annotated *args/**kwargs is typed tuple[Any, ...]/dict[str, Any] by the def route and Any by the inspect route (representational difference)")
 
 
+def r13_3(prog: Program, chk: Check) -> None:
+    chk.rule(
+        "R13.3",
+        "coroutine wrapping parity: both signature builders wrap the return type of an async function whether or not a return "
+        "annotation exists (the wrapping is conditioned on async-ness only, and on the caller not having supplied the final type)",
+        floor=2,
+    )
+    from .common import guards_of
+
+    # inspect route
+    fs = prog.func("arg_spec", "ArgSpecCache.from_signature")
+    wraps = [c for c in calls_in(fs, "make_coro_type", nested=False)]
+    if not wraps:
+        raise AnchorError("from_signature: make_coro_type call not found")
+    for c in wraps:
+        extra = []
+        has_async = False
+        for t, inbody in guards_of(c, fs):
+            names = {x.id for x in ast.walk(t) if isinstance(x, ast.Name)}
+            if names <= {"is_async"}:
+                has_async = has_async or inbody
+            elif names <= {"returns"}:
+                pass  # an explicitly supplied return type is final
+            else:
+                extra.append(("" if inbody else "not ") + norm(t))
+        chk.ob("R13.3", "arg_spec::ArgSpecCache.from_signature::coroutine-wrap", has_async and not extra, prog.site("arg_spec", c),
+               f"make_coro_type is applied only when {extra}: an async def without a return annotation is then typed Any by the inspect route and Coroutine[Any, Any, Any] by the def route")
+    # def route
+    cv = prog.func("functions", "compute_value_of_function")
+    wraps = [c for c in calls_in(cv, "make_coro_type", nested=False)]
+    if not wraps:
+        raise AnchorError("compute_value_of_function: make_coro_type call not found")
+    for c in wraps:
+        gs = guards_of(c, cv)
+        extra = [norm(t) for t, inbody in gs if "return_annotation" in norm(t) or "result is" in norm(t)]
+        has_async = any(inbody and "AsyncFunctionDef" in norm(t) for t, inbody in gs)
+        chk.ob("R13.3", "functions::compute_value_of_function::coroutine-wrap", has_async and not extra, prog.site("functions", c),
+               f"the def route must wrap every non-generator async def; extra conditions: {extra}")
+
+
+def r13_4(prog: Program, chk: Check) -> None:
+    chk.rule(
+        "R13.4",
+        "forward references are resolved in the context of the declaration that contains them: the runtime route parses "
+        "__forward_arg__ through its own context and never reads typing's evaluation cache (__forward_value__ / "
+        "__forward_evaluated__ / _evaluate), which is shared by every module that wrote the same subscript",
+        floor=2,
+    )
+    m = "annotations"
+    banned = {"__forward_value__", "__forward_evaluated__", "_evaluate", "__forward_code__"}
+    hits = []
+    for mod, q, fn in prog.iter_functions():
+        if mod != m:
+            continue
+        for n in walk_no_nested(fn):
+            if isinstance(n, ast.Attribute) and n.attr in banned:
+                hits.append((q, n))
+            if isinstance(n, ast.Call) and last_attr(n) in ("getattr", "hasattr") and len(n.args) >= 2 and isinstance(n.args[1], ast.Constant) and n.args[1].value in banned:
+                hits.append((q, n))
+    for q, n in hits:
+        chk.ob("R13.4", f"{m}::{q}::reads-typing-forwardref-cache", False, prog.site(m, n),
+               f"`{norm(n)[:60]}` reads typing's cached evaluation of a ForwardRef: after get_type_hints() in one module, List['Item'] in another module resolves to the first module's Item")
+    fn = prog.func(m, "_type_from_runtime")
+    uses_arg = [n for n in ast.walk(fn) if isinstance(n, ast.Attribute) and n.attr == "__forward_arg__"]
+    chk.ob("R13.4", f"{m}::_type_from_runtime::parses-forward-arg", bool(uses_arg), prog.site(m, fn), "the ForwardRef arm must evaluate val.__forward_arg__ (the source text) itself")
+    chk.ob("R13.4", f"{m}::no-cache-reads", not hits, f"pyanalyze/{m}.py", f"{len(hits)} reads of typing's ForwardRef evaluation cache", nontrivial=False)
+
+
 def run(prog: Program, chk: Check) -> None:
     r13_1(prog, chk)
     r13_2(prog, chk)
+    r13_3(prog, chk)
+    r13_4(prog, chk)
